@@ -78,7 +78,8 @@ Inductive label :=
 | LPeerPkt (id pay : N) | LLookup (r : nat) | LDeliver (r : nat) | LGiveUp (r : nat)
 | LIdleClose
 | LCancel (i : nat) | LFilterErr (i : nat)
-| LCount (i : nat) | LUncount (i : nat).
+| LCount (i : nat) | LUncount (i : nat)
+| LCloseOld.
 
 Fixpoint upd {A} (l : list A) (i : nat) (x : A) : list A :=
   match l, i with
@@ -232,10 +233,12 @@ Definition step (c : cfg) (s : state) (l : label) : option state :=
          running (the connection flag is not consulted), whether the bytes reach the peer is the peer's business *)
       | i :: q => Some (mkst (now s) (calls s) (rcvs s) (queueLen s) (invokeNum s) (resp s) (conn_open s) (lock s) q (i :: wire s) (sent s) (mktr (now s) (tinv (tr s) + 1)%Z (conn_t (tr s)) (conns (tr s)) (rels (tr s))))
       | [] => None end
-  | LConnDown =>
-      if conn_open s
-      then Some (mkst (now s) (calls s) (rcvs s) (queueLen s) (invokeNum s) (resp s) false (lock s) (sendq s) (wire s) (sent s) (tr s))
-      else None
+  | LConnDown =>   (* connection.close(conn) of the current connection (peer closed it, protocol error, write error): under connLock *)
+      match lock s with
+      | None => if conn_open s
+                then Some (mkst (now s) (calls s) (rcvs s) (queueLen s) (invokeNum s) (resp s) false (lock s) (sendq s) (wire s) (sent s) (tr s))
+                else None
+      | Some _ => None end
   | LPeerPkt id pay =>
       Some (mkst (now s) (calls s) (rcvs s ++ [mkrcv id pay RNew 0]) (queueLen s) (invokeNum s) (resp s) (conn_open s) (lock s) (sendq s) (wire s) ((id, pay) :: sent s) (mktr (idle_since (tr s)) (tinv (tr s) - 1)%Z (conn_t (tr s)) (conns (tr s)) (rels (tr s))))
   | LLookup r =>
@@ -283,6 +286,11 @@ Definition step (c : cfg) (s : state) (l : label) : option state :=
                   | Waiting => Some (with_calls s (upd (calls s) i (set_out k Cancelled (k_e k))))
                   | _ => None end
       | None => None end
+  | LCloseOld =>   (* connection.close(conn) by a goroutine of an EARLIER connection (conn is not the current one any more):
+                      takes connLock and releases it again, the current connection and everything else stay as they are *)
+      match lock s with
+      | None => Some (mkst (now s) (calls s) (rcvs s) (queueLen s) (invokeNum s) (resp s) (conn_open s) (lock s) (sendq s) (wire s) (sent s) (tr s))
+      | Some _ => None end
   | LCount i =>   (* the queue-limit check passed: atomic.AddInt32(&s.queueLen, 1) *)
       match nth_error (calls s) i with
       | Some k => match k_pc k with
